@@ -2,7 +2,7 @@
 \* Texts {q1,q2,q3,bad}, WrongHashes {x:rand,x:empty}, map + LRU capacity 1..3,
 \* 7 malformed kinds, 3 bad versions; histories of any length (the state space
 \* is finite); history variable off.  VIEW drops the edge label and outcome.
-\* Measured: 22 distinct states, 3740 edges generated (notes/C15.md).
+\* Measured: 79 distinct states, 19359 generated = 4 initial + 19355 edges, 2.1 s.
 SPECIFICATION Spec
 CONSTANTS
   Texts <- TTexts
@@ -17,6 +17,6 @@ CONSTANTS
   History = FALSE
 VIEW EdgeView
 INVARIANTS TypeOK Bound LruOK
-PROPERTY StepOK
+PROPERTIES ImplConforms ImplExtraOK
 ACTION_CONSTRAINT EmitEdge
 CHECK_DEADLOCK FALSE
